@@ -1,21 +1,32 @@
 import HydroVerif.Proto
 import HydroVerif.Model.C18
+import HydroVerif.Model.C18Obj
 open HydroVerif HydroVerif.C18
 
 /-
 requests
   list                                     -> names of the modelled wrappers
-  run <wrapper> [k0,k1,...]                -> ok <event>|<event>... written=[i,j]
+  run <wrapper> [k0,k1,...]                -> ok <event>|<event>... written=[i,j] retyped=[i:dtype,...] pywritten=[callers stored into at the Python level] results=[callers that what is returned / stored refers to]
+  repeat <wrapper> [k0,...] <k>            -> ok <events of call k+1 of k+1 consecutive calls (nthCall)> marked=[callers stored to so far]
         k = <v|n>:<f64|f32|i64|i32|other>:<c|s>   (viewable / not, dtype, C-contiguous / strided) for caller 0,1,...
         event = name(a,a,...) ; a = <callerindex or ->:<W|R>
-  safe <wrapper> [allowed caller indices]  -> true | false
+  safe <wrapper> [allowed caller indices]  -> <true|false> private=<what it returns / stores is made inside the call> noretype=<bool>
   kernels                                  -> names of every kernel called by a modelled wrapper
   mark <wrapper> [k0,...]                  -> ok [caller indices whose CONTENTS change under the marking contents semantics (mrun)]
+  hist [op,op,...]                         -> ok <step>|<step>...   one history on a new Catchment (Model/C18Obj.lean, `orun omarkSem`)
+        op = A:<0|1 inlets given>:<arg>:<badOutlet|badInlets|badNval|kernelError|empty|cells>   delineate_area
+           | B:<-|mask id>:<ok|err>   delineate_boundary      | F:<ok|err>   compute_flowpathlengths
+           | R:<field>   accessor / read-only method          | E:<field>    the caller overwrites the array handed out
+        field = outlet|inlets|area|filled|boundary|xyboundary|fpl
+        step = <raised 0|1>;<buffer of each field or ->;<content counter of each field or ->   (fields in the order above)
 -/
 
 def dtypeOf? : String → Option DType
   | "f64" => some .f64 | "f32" => some .f32 | "i64" => some .i64 | "i32" => some .i32 | "other" => some .other
   | _ => none
+
+def dtypeName : DType → String
+  | .f64 => "f64" | .f32 => "f32" | .i64 => "i64" | .i32 => "i32" | .other => "other"
 
 def kindOf? (s : String) : Option Kind :=
   match s.splitOn ":" with
@@ -34,8 +45,56 @@ def fmtEvent (e : Event) : String := e.name ++ "(" ++ ",".intercalate (e.args.ma
 def dedupSorted (xs : List Nat) : List Nat :=
   (xs.mergeSort (· ≤ ·)).eraseDups
 
+def fieldOf? : String → Option Field
+  | "outlet" => some .outlet | "inlets" => some .inlets | "area" => some .area | "filled" => some .filled
+  | "boundary" => some .boundary | "xyboundary" => some .xyboundary | "fpl" => some .fpl
+  | _ => none
+
+def areaOut? : String → Option AreaOut
+  | "badOutlet" => some .badOutlet | "badInlets" => some .badInlets | "badNval" => some .badNval
+  | "kernelError" => some .kernelError | "empty" => some .empty | "cells" => some .cells
+  | _ => none
+
+def kernOut? : String → Option KernOut
+  | "ok" => some .ok | "err" => some .kernelError
+  | _ => none
+
+def opOf? (s : String) : Option Op :=
+  match s.splitOn ":" with
+  | ["A", wi, arg, o] =>
+    match arg.toNat?, areaOut? o with
+    | some a, some out => if wi = "0" ∨ wi = "1" then some (.delineateArea (wi = "1") a out) else none
+    | _, _ => none
+  | ["B", m, o] =>
+    match kernOut? o with
+    | some out => if m = "-" then some (.delineateBoundary none out) else m.toNat?.map fun k => .delineateBoundary (some k) out
+    | none => none
+  | ["F", o] => (kernOut? o).map .computeFpl
+  | ["R", f] => (fieldOf? f).map .read
+  | ["E", f] => (fieldOf? f).map .callerEdit
+  | _ => none
+
+def fmtBuf : Option Buf → String
+  | some (.fresh n) => toString n
+  | some (.caller n) => "c" ++ toString n
+  | none => "-"
+
+def fmtOState (s : OState Nat) : String :=
+  (if s.raised then "1" else "0") ++ ";" ++ ",".intercalate (Field.all.map fun f => fmtBuf (s.obj.slot f)) ++ ";" ++
+    ",".intercalate (Field.all.map fun f => match s.content f with | some v => toString v | none => "-")
+
+/-- the states after every operation of a history -/
+def histStates (ops : List Op) : List (OState Nat) :=
+  (ops.foldl (fun (acc : OState Nat × List (OState Nat)) op =>
+    let s := ostep omarkSem acc.1 op
+    (s, acc.2 ++ [s])) (⟨Obj.new, fun _ => 0, false⟩, [])).2
+
 def handle (toks : List String) : String :=
   match toks with
+  | ["hist", ops] =>
+    match allSome ((listToks ops).map opOf?) with
+    | some os => "ok " ++ (if os.isEmpty then "-" else "|".intercalate ((histStates os).map fmtOState))
+    | none => "bad-op"
   | ["list"] => ",".intercalate (wrappers.map (·.1))
   | ["run", name, kinds] =>
     match wrappers.lookup name, allSome ((listToks kinds).map kindOf?) with
@@ -44,8 +103,22 @@ def handle (toks : List String) : String :=
       if ks.length < 10 then "bad-op kinds" else
       let st := run p (fun i => ks.getD i ⟨false, .other, false⟩)
       let evs := if st.events.isEmpty then "-" else "|".intercalate (st.events.map fmtEvent)
-      s!"ok {evs} written={fmtNatList (dedupSorted (writtenCallers st))}"
+      -- dtype of every caller object after the call (`callerDType`), listed where a conversion was logged
+      let kf : Nat → Kind := fun i => ks.getD i ⟨false, .other, false⟩
+      let rt := fmtList (((List.range 10).filter fun i => (st.retyped.lookup i).isSome).map fun i =>
+        toString i ++ ":" ++ dtypeName (callerDType st kf i))
+      let pyw := dedupSorted (pythonWrittenCallers p (fun i => ks.getD i ⟨false, .other, false⟩))
+      let res := dedupSorted (resultCallers name p (fun i => ks.getD i ⟨false, .other, false⟩))
+      s!"ok {evs} written={fmtNatList (dedupSorted (writtenCallers st))} retyped={rt} pywritten={fmtNatList pyw} results={fmtNatList res}"
     | _, _ => "bad-op"
+  | ["repeat", name, kinds, k] =>
+    match wrappers.lookup name, allSome ((listToks kinds).map kindOf?), k.toNat? with
+    | some p, some ks, some k =>
+      if ks.length < 10 then "bad-op kinds" else
+      let r := nthCall markSem p (fun i => ks.getD i ⟨false, .other, false⟩) (fun _ => 0) k
+      let evs := if r.st.events.isEmpty then "-" else "|".intercalate (r.st.events.map fmtEvent)
+      s!"ok {evs} marked={fmtNatList ((List.range 10).filter fun i => r.mem (.caller i) != 0)}"
+    | _, _, _ => "bad-op"
   | ["kernels"] => ",".intercalate ((wrappers.flatMap fun w => kernelsOf w.2).eraseDups)
   | ["mark", name, kinds] =>
     match wrappers.lookup name, allSome ((listToks kinds).map kindOf?) with
@@ -55,7 +128,8 @@ def handle (toks : List String) : String :=
     | _, _ => "bad-op"
   | ["safe", name, allowed] =>
     match wrappers.lookup name, parseNatList? allowed with
-    | some p, some al => toString (decide (SafeExcept al p))
+    | some p, some al =>
+      s!"{decide (SafeExcept al p)} private={decide (ReturnsPrivate p ((results.lookup name).getD []))} noretype={noRetype p}"
     | _, _ => "bad-op"
   | _ => "bad-op"
 
